@@ -121,6 +121,58 @@ Example C09_accepted_chain_example :
 Proof. vm_compute. repeat split; reflexivity. Qed.
 Print Assumptions C09_accepted_chain_example.
 
+(* ---- negative infinity (finding negative-infinity-literal-not-reparsed, fixed in the crate by e1187a7).  A literal that
+   overflows downwards (`$.a > -1e999`) is accepted as Float64(-inf) and printed as `-inf`; nom's `double` reads `inf` only
+   without a sign, so the printout was rejected: for this float the hypothesis path_float_reads_back of the theorems above
+   could not be met by ANY printer whose text starts with `-i`.  The fix adds the alternative `-` `inf` (any letter case) to
+   the literal reader, after `double` and before the string literal.  Now the hypothesis is met by a printer that prints
+   `-inf` (which is what the crate's Display does), and every accepted path whose float literals are non-finite (inf, -inf,
+   NaN, printed so) round-trips, the printer being the extracted model's own (Render.float_placeholder). *)
+Theorem C09_negative_infinity_literal_reads_back : forall pf, pf F_NEG_INF = [45; 105; 110; 102] -> path_float_reads_back pf F_NEG_INF.
+Proof. exact path_float_reads_back_neg_inf. Qed.
+Print Assumptions C09_negative_infinity_literal_reads_back.
+
+Theorem C09_negative_infinity_literal_round_trips :
+  forall bs ps, parse_json_path bs = Ok ps -> leaf_path nonfinite_floats ps = true ->
+  parse_json_path (show_json_path Render.float_placeholder ps) = Ok ps.
+Proof. exact accepted_path_roundtrip_nonfinite. Qed.
+Print Assumptions C09_negative_infinity_literal_round_trips.
+
+(* the witness of the finding: $.a > -1e999 parses, prints as $.a > -inf, and that parses to the same structure *)
+Example C09_negative_infinity_literal_round_trips_example :
+  let text := [36; 46; 97; 32; 62; 32; 45; 49; 101; 57; 57; 57] in
+  let ps := [PPredicate (EBin OGt (EPaths [PRoot; PDotField [97]]) (EValue (PVNum (NFloat F_NEG_INF))))] in
+  parse_json_path text = Ok ps /\ leaf_path nonfinite_floats ps = true /\
+  show_json_path Render.float_placeholder ps = [36; 46; 97; 32; 62; 32; 45; 105; 110; 102] /\
+  parse_json_path (show_json_path Render.float_placeholder ps) = Ok ps.
+Proof. exact neg_inf_literal_roundtrip. Qed.
+Print Assumptions C09_negative_infinity_literal_round_trips_example.
+
+(* the forms of the new literal, as the crate reads them (correspondence cases `neg-inf` of C09):
+   $.a > -inf, $.a > -INF, $?(@.x == -Inf), -inf == $.a (on the left), $.a == -inf && $.b == inf are comparisons with
+   -infinity (0xFFF0000000000000); a stand-alone -inf is the sign applied to inf, as -5 is the sign applied to 5;
+   $.a > -infinity, $.a > -infx, $.a > -inf5, $.a > - inf, $.a > -nan, $.a > +inf are rejected *)
+Example C09_negative_infinity_literal_forms :
+  let cmp op l r := EBin op l r in
+  let a := EPaths [PRoot; PDotField [97]] in
+  let ninf := EValue (PVNum (NFloat F_NEG_INF)) in
+  parse_json_path [36; 46; 97; 32; 62; 32; 45; 105; 110; 102] = Ok [PPredicate (cmp OGt a ninf)] /\
+  parse_json_path [36; 46; 97; 32; 62; 32; 45; 73; 78; 70] = Ok [PPredicate (cmp OGt a ninf)] /\
+  parse_json_path [36; 63; 40; 64; 46; 120; 32; 61; 61; 32; 45; 73; 110; 102; 41]
+    = Ok [PRoot; PFilter (cmp OEq (EPaths [PCurrent; PDotField [120]]) ninf)] /\
+  parse_json_path [45; 105; 110; 102; 32; 61; 61; 32; 36; 46; 97] = Ok [PPredicate (cmp OEq ninf a)] /\
+  parse_json_path [36; 46; 97; 32; 61; 61; 32; 45; 105; 110; 102; 32; 38; 38; 32; 36; 46; 98; 32; 61; 61; 32; 105; 110; 102]
+    = Ok [PPredicate (EBin OAnd (cmp OEq a ninf) (cmp OEq (EPaths [PRoot; PDotField [98]]) (EValue (PVNum (NFloat F_INF)))))] /\
+  parse_json_path [45; 105; 110; 102] = Ok [PPredicate (EArithU USub (EValue (PVNum (NFloat F_INF))))] /\
+  parse_json_path [36; 46; 97; 32; 62; 32; 45; 105; 110; 102; 105; 110; 105; 116; 121] = Err EOther /\
+  parse_json_path [36; 46; 97; 32; 62; 32; 45; 105; 110; 102; 120] = Err EOther /\
+  parse_json_path [36; 46; 97; 32; 62; 32; 45; 105; 110; 102; 53] = Err EOther /\
+  parse_json_path [36; 46; 97; 32; 62; 32; 45; 32; 105; 110; 102] = Err EOther /\
+  parse_json_path [36; 46; 97; 32; 62; 32; 45; 110; 97; 110] = Err EOther /\
+  parse_json_path [36; 46; 97; 32; 62; 32; 43; 105; 110; 102] = Err EOther.
+Proof. vm_compute. repeat split; reflexivity. Qed.
+Print Assumptions C09_negative_infinity_literal_forms.
+
 (* ---- the documented language as a grammar (PathGrammar.v, written from README.md / path.rs / the golden tests / the
    property text): every text of the grammar is accepted and yields the structure the grammar gives it, whatever the
    spacing, the letter case of `last` / `to`, and whether names are bare or quoted.  jp_rooted_text = paths starting with
@@ -211,8 +263,8 @@ Print Assumptions C09_accepted_steps_are_in_the_grammar_partial.
 (* ---- soundness: NOTHING ELSE is accepted.  Whatever parse_json_path accepts is a text of the grammar jp_text, with the
    structure the grammar gives it (PathGrammarSound.v: every alternative of every ordered choice of the parser, in the
    parser's order, lands in a production; the whole-input check — trailing spacing, nothing left over — included).
-   No production had to be added to PathGrammar.v: the X_ productions already there (signs on positions and offsets,
-   `last + n`, `+5`, `5.`, `.5`, nan / inf, `@` inside exists at the top level, escapes in bare names) are all the
+   The X_ productions of PathGrammar.v (signs on positions and offsets, `last + n`, `+5`, `5.`, `.5`, nan / inf, `-inf`
+   (X_N_neg_inf, added with the crate's fix e1187a7), `@` inside exists at the top level, escapes in bare names) are all the
    extras the parser has. *)
 From JB Require Import PathGrammarSound.
 
@@ -288,6 +340,17 @@ Example C09_accepted_text_has_a_derivation :
                  [PRoot; PIndices [AIndex (IIndex 0); ASlice (ILast (-1)) (ILast 0)]].
 Proof. apply C09_rooted_forms_are_accepted_exactly; [exact I|exact C09_indices]. Qed.
 Print Assumptions C09_accepted_text_has_a_derivation.
+
+(* `$.a > -inf` is a text of the grammar (production X_N_neg_inf), with a comparison against negative infinity as its structure *)
+Example C09_negative_infinity_literal_in_the_grammar :
+  jp_rooted_text [36; 46; 97; 32; 62; 32; 45; 105; 110; 102]
+                 [PPredicate (EBin OGt (EPaths [PRoot; PDotField [97]]) (EValue (PVNum (NFloat F_NEG_INF))))] /\
+  number_text [45; 73; 110; 70] (NFloat F_NEG_INF).
+Proof.
+  split; [apply C09_rooted_forms_are_accepted_exactly; [exact I|vm_compute; reflexivity]|].
+  apply X_N_neg_inf. reflexivity.
+Qed.
+Print Assumptions C09_negative_infinity_literal_in_the_grammar.
 
 (* rejections as consequences: a rejected text that does not start like an expression is OUTSIDE the grammar (by the
    completeness theorems), and being outside the grammar is why it is an error (C09_everything_else_is_an_error) *)
